@@ -765,7 +765,47 @@ def gen_declrules():
     return {"struct_ops": s_ops, "enum_ops": e_ops, "subrange_arms": len(arms)}
 
 
-GENERATORS = [("GenRules", gen_rules), ("GenDeclRules", gen_declrules), ("GenExprKind", gen_exprkind), ("GenDataDecl", gen_datadecl), ("GenPrec", gen_prec), ("GenPanicSites", gen_panic_sites), ("GenPipeline", gen_pipeline), ("GenTopo", gen_topo), ("GenStages", gen_stages), ("GenTokens", gen_tokens), ("GenLegend", gen_legend), ("GenDecoders", gen_decoders)]
+def gen_project():
+    """project.rs FileBackedProject::semantic and lsp_project.rs LspProject::semantic: the sources are collected from the map,
+    sorted by the string of their file identifier, parsed in that order and analyzed together; the language server keeps the
+    diagnostics that mention the file; the command line calls the same semantic()."""
+    prj = read("compiler/plc2x/src/project.rs").split("#[cfg(test)]")[0]
+    body = " ".join(code_lines(fn_body(prj, r"fn semantic\(&mut self\) -> Result<\(\), Vec<Diagnostic>> \{", "project.rs: semantic")))
+    frags = ["let mut sources: Vec<_> = self.sources.iter_mut().collect();",
+             "sources.sort_by_key(|source| ",
+             "let library_results: Vec<_> = sources .into_iter() .map(|source| source.1.library()) .collect();",
+             "match analyze(&all_libraries) {"]
+    at = -1
+    for f in frags:
+        k = body.find(f, at + 1)
+        if k < 0:
+            raise Refuse("project.rs: semantic() no longer has the modelled steps in order (missing %r after offset %d)" % (f, at))
+        at = k
+    key = re.search(r"sources\.sort_by_key\(\|source\| (.*?)\);", body)
+    if not key:
+        raise Refuse("project.rs: the sort key of the sources not found")
+    if "sources: HashMap<FileId, Source>," not in prj:
+        raise Refuse("project.rs: the sources are no longer a map from file identifiers")
+    lsp = read("compiler/plc2x/src/lsp_project.rs").split("#[cfg(test)]")[0]
+    lb = " ".join(code_lines(fn_body(lsp, r"pub\(crate\) fn semantic\(&mut self, url: &Url\) -> Vec<lsp_types::Diagnostic> \{", "lsp_project.rs: semantic")))
+    flt = re.search(r"let semantic_result = self\.wrapped\.semantic\(\);.*?Ok\(_\) => vec!\[\], Err\(diagnostics\) => diagnostics \.into_iter\(\) \.filter\(\|d\| (.*?)\) \.map\(\|d\| map_diagnostic\(d, self\.wrapped\.as_ref\(\)\)\) \.collect\(\),", lb)
+    if not flt:
+        raise Refuse("lsp_project.rs: semantic() is no longer wrapped.semantic() filtered by file and mapped one by one")
+    cli = read("compiler/plc2x/src/cli.rs").split("#[cfg(test)]")[0]
+    cb = " ".join(code_lines(fn_body(cli, r"pub fn check\(", "cli.rs: check")))
+    if "project.semantic()" not in cb:
+        raise Refuse("cli.rs: check() no longer calls the project's semantic()")
+    o = ["(* GENERATED by tools/translate.py from compiler/plc2x/src/{project,lsp_project,cli}.rs -- do not edit *)",
+         "From Coq Require Import List String.", "Import ListNotations.", "Local Open Scope string_scope.", "",
+         'Definition project_semantic_steps : list string := ["collect the map"; "sort by key"; "parse each in that order"; "analyze together"].',
+         "Definition project_sort_key : string := %s." % coq_string(key.group(1).strip()),
+         "Definition lsp_file_filter : string := %s." % coq_string(flt.group(1).strip()),
+         'Definition check_calls : string := "project.semantic()".', ""]
+    write_if_changed("GenProject.v", "\n".join(o) + "\n")
+    return {"sort_key": key.group(1).strip(), "filter": flt.group(1).strip()}
+
+
+GENERATORS = [("GenRules", gen_rules), ("GenProject", gen_project), ("GenDeclRules", gen_declrules), ("GenExprKind", gen_exprkind), ("GenDataDecl", gen_datadecl), ("GenPrec", gen_prec), ("GenPanicSites", gen_panic_sites), ("GenPipeline", gen_pipeline), ("GenTopo", gen_topo), ("GenStages", gen_stages), ("GenTokens", gen_tokens), ("GenLegend", gen_legend), ("GenDecoders", gen_decoders)]
 
 
 def main():
